@@ -18,8 +18,10 @@ CLAIMED = {
     "C20": ("E1 kani-cbmc", "4 C20",
             "Bounded model checking of ElixirRange::{is_empty,len,contains}, RangeIterator::{next,size_hint}: overflow/panic freedom for all "
             "i64 first/last/step/value; agreement of len/contains/iteration with a 128-bit reference for all i64 bounds and a set of "
-            "steps (symbolic 64-bit division equivalence is out of reach). Date/time/map-set/proplist clauses are not decided (see DESIGN).",
-            "kani+cbmc bounded model checking against a 128-bit reference"),
+            "steps (symbolic 64-bit division equivalence is out of reach). E2: the MIR of the four date/time from_term functions is executed "
+            "symbolically with the map lookups as environment stubs; z3 decides that no returned value has a field different from the term's "
+            "integer (all i64 values, any subset of keys present). MapSet, exceptions, builders and proplist/map helpers are not decided.",
+            "kani+cbmc bounded model checking against a 128-bit reference; MIR->SMT for the date/time wrappers"),
 }
 CLAIMED["C16"] = ("E2 mir-smt", "4 C16",
     "Bounded model checking over interleavings: the MIR of PidAllocator::allocate and Node::make_reference (regenerated from the working "
